@@ -38,6 +38,8 @@ type fakeConn struct {
 	// returns an error to fail the write
 	failWrite func(n int, b []byte, addr net.Addr) error
 	reads   atomic.Int64
+	// number of ReadFrom calls entered
+	readCalls atomic.Int64
 }
 
 func newFakeConn(local *net.UDPAddr) *fakeConn {
@@ -48,6 +50,7 @@ func newFakeConn(local *net.UDPAddr) *fakeConn {
 }
 
 func (c *fakeConn) ReadFrom(p []byte) (int, net.Addr, error) {
+	c.readCalls.Add(1)
 	select {
 	case pk := <-c.in:
 		c.reads.Add(1)
@@ -110,8 +113,13 @@ func (c *fakeConn) numWrites() int {
 	return len(c.out)
 }
 
-// Wait until every injected datagram has been read by the serve loop.
-func (c *fakeConn) drained() bool { return len(c.in) == 0 }
+// True when the serve loop is back in ReadFrom with nothing queued: every datagram injected so far
+// has been read AND its processPacket call has returned.
+func (c *fakeConn) idle() bool {
+	return len(c.in) == 0 && c.readCalls.Load() == c.reads.Load()+1
+}
+
+func (c *fakeConn) waitIdle(timeout time.Duration) bool { return waitFor(c.idle, timeout) }
 
 func waitFor(cond func() bool, timeout time.Duration) bool {
 	deadline := time.Now().Add(timeout)
